@@ -289,6 +289,22 @@ def run_matrix(case, out, fail, sc, dump=False):
              "%s: the very same backend object is handed out twice" % label_of(case))
     for k, (w, g) in diff_vec(want, got).items():
         fail(SIG.get(k, k), "%s: behaviour %s is %s, the constructor-argument equivalent gives %s" % (label_of(case), k, g, w))
+    if case["form"] == "repo_yaml_template" and case["stype"] == "filesystem":
+        # the same template file rendered once more, with other values for the same parameters: the options are those
+        # of this rendering, not of the first one
+        root2 = sc.path("cfg second rendering")
+        params2 = {"root": root2, "metadir": "meta", "cache_mb": CACHES[case["cache"]] if case["cache"] else 0}
+        try:
+            repo2 = m.ConfigurationRepository.from_file(os.path.join(sc.path("files"), "repo.yaml"), **params2)
+            st2 = repo2.clusters["c"].storage
+            got2 = behaviour(st2, [os.path.join(root2, "data"), os.path.join(root2, "meta")], 0, audit)
+            out["obs"]["templates_rendered_a_second_time"] += 1
+            for k, (w, g) in diff_vec(want, got2).items():
+                fail(SIG.get(k, k), "%s: the template file rendered a second time with other parameter values: behaviour %s is %s, "
+                                    "the constructor-argument equivalent gives %s" % (label_of(case), k, g, w))
+        except Exception as e:
+            fail("building a backend from a valid configuration raises " + type(e).__name__,
+                 "%s: second rendering of the template: %r" % (label_of(case), e))
     if cluster is not None:
         e = m.Environment(name="e", repos=[m.ConfigurationRepository(name="r", clusters={"c": cluster})])
         m.Environment.set(e)
